@@ -353,6 +353,8 @@ def gen_world(rs: int, P: dict) -> dict:
     if ridle.random() < P.get("long_idle", 0.03):
         # the simulation starts long before anything happens (hundreds of idle periods first)
         off_ = ridle.choice([150, 300, 700])
+        if ridle.random() < P.get("very_long_idle", 0.0) / max(1e-9, P.get("long_idle", 0.03)):
+            off_ = ridle.choice([3500, 17000, 17000, 20000])      # two weeks of one-minute periods before the first arrival
         for s_ in sessions:
             s_["arrival"] += off_
             s_["departure"] += off_
